@@ -168,14 +168,14 @@ func (g *G) Action(guard bool, mode string) *Prog {
 		p.Lang = "native"
 		p.Partial = g.P(1, 2)
 	}
-	n := g.Intn(4)
+	n := 1 + g.Intn(4)
 	for i := 0; i < n; i++ {
-		switch g.Intn(12) {
+		switch g.Intn(13) {
 		case 0, 1:
 			p.Ops = append(p.Ops, []interface{}{"set", g.PickS(bkeys...), g.litValue()})
 		case 2:
 			p.Ops = append(p.Ops, []interface{}{"del", g.PickS(append(bkeys, "?x", "?n")...)})
-		case 3, 4:
+		case 3, 4, 11:
 			if !guard || g.P(1, 3) {
 				p.Ops = append(p.Ops, []interface{}{"emit", map[string]interface{}{"tag": g.PickS("e1", "e2", "e3"), "i": float64(i)}})
 			}
@@ -424,7 +424,13 @@ func (g *G) Bindings(mode string) map[string]interface{} {
 
 func (g *G) WalkCase(mode string) WalkCase {
 	c := WalkCase{Spec: g.Spec(mode), Profile: mode}
-	c.St = StateD{Node: g.PickS(nodeNames[:len(c.Spec.Nodes)%len(nodeNames)+1]...), Bs: g.Bindings(mode)}
+	names := []string{}
+	for _, n := range nodeNames {
+		if _, have := c.Spec.Nodes[n]; have {
+			names = append(names, n)
+		}
+	}
+	c.St = StateD{Node: g.PickS(names...), Bs: g.Bindings(mode)}
 	if g.P(1, 25) {
 		c.St.Node = g.PickS("nowhere", "error")
 	}
